@@ -65,7 +65,8 @@ def main():
     manifest = json.load(open(os.path.join(VERIF, "MANIFEST.json")))
     claimed = [c["property_id"] for c in manifest["checks"]]
     props = props or claimed
-    rc, out = sh(f"git -C /repo apply {dst}/patch.diff")
+    scratch = "--scratch" in sys.argv          # run the checks against the worktree itself (REPO override): /repo untouched
+    rc, out = (0, "") if scratch else sh(f"git -C /repo apply {dst}/patch.diff")
     fired = {}
     if rc != 0:
         meta["apply_error"] = out[-500:]
@@ -73,14 +74,16 @@ def main():
         try:
             for p in props:
                 rcp, outp = sh(f"/venv/bin/python harness/check.py {p} --tier quick", cwd=VERIF,
-                               env=dict(os.environ, VERIF_EVIDENCE_DIR=os.path.join(VERIF, ".work", "evidence-seed")))
+                               env=dict(os.environ, VERIF_EVIDENCE_DIR=os.path.join(VERIF, ".work", "evidence-seed-" + name),
+                                        **({"REPO": wt} if scratch else {})))
                 m = re.search(r"VIOLATION property=(\S+) replay=(\S+)(.*)", outp)
                 fired[p] = {"rc": rcp, "violation": bool(m), "no_failing_input": bool(m and "no-failing-input-found" in m.group(3)),
                             "summary": outp.strip().split("\n")[-1][-200:]}
                 if m and os.path.exists(m.group(2)):
                     shutil.copy(m.group(2), os.path.join(dst, f"replay-{p}.json"))
         finally:
-            sh("git -C /repo checkout -- .")
+            if not scratch:
+                sh("git -C /repo checkout -- .")
     meta["checks"] = fired
     meta["detected_by"] = sorted(p for p, v in fired.items() if v["violation"])
     meta["what_we_ran"] = "demo.py on original/changed scratch worktree; baseline pytest (no shim) on both; " \
